@@ -501,6 +501,12 @@ func raCorpus(engine string) []Case {
 		collide = append(collide, Case{Ops: []string{"new 8 4 -", regOp(1, nil, "/r/{id}", false), regOp(2, nil, "/r/{id}/edit", false),
 			q(g, a), q(g, a+"x"), q(g, a+"xyz"), q(g, a), sv(g, a+"/edit"), sv(g, a), sv(g, a+"/edit"), sv(g, a+"/none"), q(g, a[:len(a)-1]), "ckeys"}, Tag: "corpus-longkey"})
 	}
+	// InterceptAll with a target that a DYNAMIC route serves, the caching option given before it (mask 8) and after it
+	// (mask 8+64): the intercepted lookups are cached like any other
+	for _, hdr := range []string{"new 8 4 " + hx("/m/en"), "new 72 4 " + hx("/m/en")} {
+		collide = append(collide, Case{Ops: []string{hdr, regOp(1, nil, "/m/{lang}", false), regOp(2, nil, "/x/{id}", false),
+			q(g, "/x/1"), "ckeys", sv(g, "/anything"), "ckeys", q(g, "/x/1"), q(p, "/zz"), "ckeys"}, Tag: "corpus-intercept-cached"})
+	}
 	switch engine {
 	case "route":
 		return append(append([]Case{overlap("new 0 0 -"), gv("new 0 0 -"), gv("new 4 0 -")}, collide...), raCorpus2(engine)...)
